@@ -4,7 +4,7 @@ import json, subprocess, sys
 pid = sys.argv[1]
 base = subprocess.run(["/verif/tools/seed_prompt.py", pid], capture_output=True, text=True).stdout
 known = []
-for X in "ABCDEFGH":
+for X in "ABCDEFGHIJ":
     try:
         m = json.load(open(f"/verif/seeded/{pid}{X}/meta.json"))
         known.append(f"- files {m.get('files_changed')}: {str(m.get('needs_to_manifest'))[:300]}")
